@@ -157,23 +157,30 @@ structure Sleep where
   id : Nat
   deadline : Nat
   handle : Option Nat := none
+  /-- ghost (not in the code): time of the first poll since creation / the last reset / the last
+      completion — the instant from which somebody has been waiting for this deadline -/
+  armed : Option Nat := none
 deriving DecidableEq, Repr
+
+/-- since when the sleep is being waited for, if it is polled at `now` -/
+def Sleep.since (s : Sleep) (now : Nat) : Nat := s.armed.getD now
 
 /-- `Sleep::poll` by task `tid` at `now`: (new sleep, queue ops, ready?) -/
 def Sleep.poll (s : Sleep) (tid now : Nat) : Sleep × List Op × Bool :=
   if now < s.deadline then
     match s.handle with
-    | none => ({ s with handle := some s.deadline }, [.register s.deadline s.id tid], false)
-    | some _ => (s, [], false)
+    | none => ({ s with handle := some s.deadline, armed := some (s.since now) },
+               [.register s.deadline s.id tid], false)
+    | some _ => ({ s with armed := some (s.since now) }, [], false)
   else
     -- `handle.take()` + `resolve()`: the handle is dropped without touching the queue
-    ({ s with handle := none }, [], true)
+    ({ s with handle := none, armed := none }, [], true)
 
 /-- `Sleep::reset` -/
 def Sleep.reset (s : Sleep) (d' : Nat) : Sleep × List Op :=
   match s.handle with
-  | some h => ({ s with handle := none, deadline := d' }, [.reset h s.id d'])
-  | none => ({ s with deadline := d' }, [])
+  | some h => ({ s with handle := none, deadline := d', armed := none }, [.reset h s.id d'])
+  | none => ({ s with deadline := d', armed := none }, [])
 
 /-- dropping a `Sleep` drops its handle -/
 def Sleep.drop (s : Sleep) : List Op :=
